@@ -56,7 +56,8 @@ def gen_histories(ctx, label, n):
         for o in tail:
             if o == 'solve':
                 idle = rng.choice([0, 2000, 7000000])       # 7 s of idle time exceeds every limit used
-                hist.append(['solve', limit if rng.random() < 0.8 else rng.choice([None, 5]), idle])
+                hist.append(['solve', limit if rng.random() < 0.8 else rng.choice([None, 5]), idle,
+                             rng.choice([None, None, 2])])      # a re-solve may ask for another number of threads
             else:
                 hist.append([o])
         yield dict(text=instgen.render(ast), na=ast['na'], twopl=twopl, pc=pc, stab=stab, bf=bf,
